@@ -76,7 +76,8 @@ def params(ctx, kind, name, form="const", fixed=None, loss=False, nmux=1, rs_lis
     for key in PARAMS[kind]:
         if key in fixed:
             P[key] = fixed[key]
-        elif only is not None and key not in only and key not in mandatory:
+        elif only is not None and key not in only and key not in mandatory and not (
+                key == TABLE_KEY.get(kind) and parse_form(form)):
             continue
         elif key == TABLE_KEY.get(kind) and parse_form(form):
             n_io, n_vi = parse_form(form)
